@@ -11,6 +11,8 @@ ASSUMPTIONS = ["the theorems quantify over event sequences without shutdown requ
 
 def run(seed, tier, replay=None):
     result = {"evaluations": 0, "distinct_nontrivial": 0, "rule": "", "samples": [], "traces": 0, "dist": {}, "violations": [], "broken": []}
-    return mix.merge(result, tim.run_family("slow", seed, tier, 8, 80))
+    r = mix.merge(result, tim.run_family("slow", seed, tier, 8, 80))
+    # the deadline counts running time: stop/continue before the deadline, in the grace period
+    return mix.merge(r, tim.run_family("stop", seed, tier, 3, 24, kinds=("early", "late", "signalled", "model", "hang")))
 
 KNOWN_MATCHERS = {}
